@@ -20,7 +20,7 @@ EXPLANATION = (
     "checked to be reachable (inconsistent data are refused) and not always true (consistent data are accepted). (b) For arbitrary non-negative stocks the reported characteristic equals sum(members)/denominator, 0 when the numerator is below 1e-6, "
     "and the value stored during integration equals sum/denominator (0 for 0/0). Bounds: <= 4 unknown compartments, <= 4 equations, one population type (population types other than the default are outside), T = 2; tolerance 1e-6 as stated by the property."
 )
-GROUP_TIMEOUT = {"quick": 900, "thorough": 3000}
+GROUP_TIMEOUT = {"quick": 1800, "thorough": 3600}
 
 
 def _rate():
